@@ -107,11 +107,11 @@ fn main() {
 '''
 
 
-def run_gendrv(requests, timeout=600):
+def run_gendrv(requests, timeout=600, cwd=None):
     """engine A: batch of requests through one `gendrv serve` process -> list of responses (same order)"""
     exe = build.bin_path("gendrv")
     inp = "".join(json.dumps(r) + "\n" for r in requests)
-    p = subprocess.run([exe, "serve"], input=inp, capture_output=True, text=True, timeout=timeout)
+    p = subprocess.run([exe, "serve"], input=inp, capture_output=True, text=True, timeout=timeout, cwd=cwd)
     out = []
     for line in p.stdout.splitlines():
         out.append(json.loads(line))
@@ -120,7 +120,7 @@ def run_gendrv(requests, timeout=600):
         died_at = len(out)
         out.append({"id": requests[died_at].get("id"), "outcome": "crash", "message": "gendrv exited with %s: %s" % (p.returncode, p.stderr[-300:])})
         if died_at + 1 < len(requests):
-            out += run_gendrv(requests[died_at + 1:], timeout)
+            out += run_gendrv(requests[died_at + 1:], timeout, cwd)
     return out
 
 
@@ -147,7 +147,7 @@ def _limits(cpu_s, as_bytes):
     return fn
 
 
-def run_gendrv_one(request, cpu_s=60, as_bytes=4 << 30, wall_s=120, mode="one"):
+def run_gendrv_one(request, cpu_s=60, as_bytes=4 << 30, wall_s=120, mode="one", cwd=None):
     """one request in a fresh process, nothing caught: exit status / signal / CPU time of THIS child
     (os.wait4) are the observation; the wall-clock watchdog only ever yields `timed_out`"""
     import tempfile
@@ -158,7 +158,7 @@ def run_gendrv_one(request, cpu_s=60, as_bytes=4 << 30, wall_s=120, mode="one"):
         fin.write(json.dumps(request).encode())
         fin.flush()
         fin.seek(0)
-        p = subprocess.Popen([exe, mode], stdin=fin, stdout=fout, stderr=ferr, preexec_fn=_limits(cpu_s, as_bytes))
+        p = subprocess.Popen([exe, mode], stdin=fin, stdout=fout, stderr=ferr, preexec_fn=_limits(cpu_s, as_bytes), cwd=cwd)
         timed_out = []
 
         def kill():
@@ -458,11 +458,17 @@ class Factory:
             lines = []
             for v in c["vectors"]:
                 tgt = v["target"]
-                if v["kind"] == "enum" and tgt.startswith("@enum"):
+                if v["kind"] == "enum" and tgt.startswith("@enum") and not tgt.startswith("@enum-of:"):
                     # "@enum" / "@enum:<n>": the n-th GraphQL enum discovered in the emitted items (not predicted)
                     ens = self.disc.get(cid, {}).get("enums", [])
                     n = int(tgt.split(":")[1]) if ":" in tgt else 0
                     tgt = "%s/%s" % (ens[n]["module"], ens[n]["name"]) if n < len(ens) else "no-enum-discovered"
+                elif v["kind"] == "enum" and tgt.startswith("@enum-of:"):
+                    # the discovered enum whose name equals the GraphQL name up to case and underscores
+                    # (only used to locate the probe; what the probe observes is judged independently)
+                    want = tgt.split(":", 1)[1].replace("_", "").lower()
+                    ens = [e for e in self.disc.get(cid, {}).get("enums", []) if e["name"].replace("_", "").lower() == want]
+                    tgt = "%s/%s" % (ens[0]["module"], ens[0]["name"]) if ens else "no-enum-discovered"
                 key = "%s:%s/%s" % (v["kind"], cid, tgt)
                 lines.append(json.dumps({"key": key, "vid": v["id"], "input": v["input"]}))
             try:
